@@ -316,7 +316,7 @@ func c10ChooseSources(x *vx.X, credList []int) *c10Script {
 }
 
 // sources2: depth 2 (all 16 target pairs)
-// thorough: every kind x credential source x access x start policy x final policy, status 307, forms {absolute, scheme-relative}
+// thorough: every kind x credential source x access x start policy x final policy, status 307, forms {absolute, scheme-relative} (chain class: absolute)
 // quick:    kinds {batch, get/creds@api, get/creds@B, get/hdr-unauthenticated}, 11 credential configurations (no cache warm-up), start policy {open, need}, final host open, absolute
 func c10ChooseSources2(x *vx.X, credList []int) *c10Script {
 	sc := &c10Script{World: "direct", Pol: map[int]c10Pol{}}
@@ -324,7 +324,9 @@ func c10ChooseSources2(x *vx.X, credList []int) *c10Script {
 	forms := []int{c10FAbs}
 	if c10Thorough {
 		credKind = c10ChooseCommon(x, sc, credList)
-		forms = []int{c10FAbs, c10FSchemeRel}
+		if credList[0] != c10CNetrcAll {
+			forms = []int{c10FAbs, c10FSchemeRel} // the (slow, process-spawning) chain class keeps absolute Locations only
+		}
 	} else {
 		sc.Kind = []int{0, 4, 5, 8}[x.In(4)]
 		sc.API = 0
@@ -416,13 +418,13 @@ var c10Blocks = []struct {
 	needGit bool
 	share   float64 // cumulative share of the time budget
 }{
-	{"loop", c10ChooseLoop, false, 0.04},
-	{"shape", c10ChooseShape, false, 0.30},
-	{"sources-helper", func(x *vx.X) *c10Script { return c10ChooseSources(x, c10HelperCreds) }, false, 0.50},
-	{"sources-chain", func(x *vx.X) *c10Script { return c10ChooseSources(x, c10ChainCreds) }, true, 0.66},
-	{"sources2-helper", func(x *vx.X) *c10Script { return c10ChooseSources2(x, c10HelperCreds) }, false, 0.78},
-	{"sources2-chain", func(x *vx.X) *c10Script { return c10ChooseSources2(x, c10ChainCreds) }, true, 0.88},
-	{"proxy", c10ChooseProxy, false, 1.0},
+	{"loop", c10ChooseLoop, false, 0.03},
+	{"shape", c10ChooseShape, false, 0.22},
+	{"sources-helper", func(x *vx.X) *c10Script { return c10ChooseSources(x, c10HelperCreds) }, false, 0.40},
+	{"sources2-helper", func(x *vx.X) *c10Script { return c10ChooseSources2(x, c10HelperCreds) }, false, 0.50},
+	{"proxy", c10ChooseProxy, false, 0.60},
+	{"sources-chain", func(x *vx.X) *c10Script { return c10ChooseSources(x, c10ChainCreds) }, true, 0.85},
+	{"sources2-chain", func(x *vx.X) *c10Script { return c10ChooseSources2(x, c10ChainCreds) }, true, 1.0},
 }
 
 func c10SetPath(needGit bool) {
@@ -1093,8 +1095,10 @@ func TestVerifC10(t *testing.T) {
 	c.Rule = "one execution = one case = one choice vector (all choices are Input choices: full product). A case fixes: request kind (13: batch POST, locks GET, verify/GET/PUT of an action href on the API host or on another port, with the action's own Authorization header or with looked-up credentials, Transfer.Authenticated or not), " +
 		"credential configuration (13: recording helper as Client.Credentials, multistage helper, user:pass / user-only in lfs.url, user:pass in the git remote URL on the same / on another host, URL-scoped http.<url>.extraheader, and the production helper chain netrc -> cache -> askpass -> `git credential` with netrc for all hosts / one host, GIT_ASKPASS, a `git` stub, each of the last two also after a cache warm-up request), " +
 		"access mode of the start host (none/basic), 401 policy of the start and of the final host (open, needs Authorization, needs it and rejects the first one), and the redirect chain: per hop target in {A https, B same host other port, C other host same port, D plain http}, status in {301,302,303,307,308}, Location form in {absolute, absolute with userinfo, upper-case scheme, scheme-relative, unparseable, and for same-host hops path-absolute, bare relative, empty}. " +
-		"Scenario shape: all chains of depth 0..2 with independent hops and depth 3..4 with one status/form per chain, start on https A or plain-http D, kinds batch and action-header GET. Scenario sources: depth 0..1 x all kinds x all credential configurations x access x 401 policies (quick: status {302,307}, forms {absolute, path-absolute}). Scenario sources2: depth 2 likewise (quick: 307/absolute). " +
-		"Scenario proxy: the same client through http.proxy against virtual hosts https://api.test, http://api.test, https://api.test:8443, https://other.test, http://other.test (default ports, upper-case / explicit-default-port / trailing-dot aliases), depth 0..2. Scenario loop: endless redirect loops (self relative/absolute, ping-pong, 3-cycle) x 5 statuses x 4 kinds. " +
+		"Scenarios (each a full product): shape = all chains of depth 0..2 with independent hops and depth 3..4 with one status/form per chain, start on https A or plain-http D, kinds batch and action-header GET (quick: depth 2 with one status per chain out of {302,307,308}, depth 3..4 with 307 and {absolute, scheme-relative}, start D only to depth 1). " +
+		"sources-helper / sources-chain = depth 0..1 x all kinds x the 7 helper-class / 6 chain-class credential configurations x access x 401 policies (thorough: statuses {301,303,307}, every Location form; quick: 307, forms {absolute, path-absolute}, 11 kinds, final-host policy {open, need}). " +
+		"sources2-helper / sources2-chain = depth 2, all 16 target pairs (thorough: all kinds and policies, 307, {absolute, scheme-relative}; quick: 4 kinds, start policy {open, need}, absolute). " +
+		"proxy = the same client through http.proxy against virtual hosts https://api.test, http://api.test, https://api.test:8443, https://other.test, http://other.test (default ports; absolute / upper-case host / explicit-default-port / trailing-dot / path-absolute Locations), depth 0..2, 4 credential configurations. loop = endless redirect loops (self relative/absolute, ping-pong, 3-cycle) x statuses x 3 body-less kinds. " +
 		"distinct_nontrivial = distinct cases in which at least one request carrying an Authorization value was observed AND at least one redirect was followed or one 401 was answered"
 	c.Assumptions = []string{
 		"identity of a destination = scheme, lower-cased host name without trailing dot, effective port (default 80/443) of the URL the client addressed (Host header + TLS or not); netrc values are compared by host name only (netrc's own semantics)",
